@@ -130,3 +130,16 @@ Print Assumptions C04_delimiter_needed.
    the loop lemma (BaseTypesProofs.load_seq) is generic and is instantiated for STRING above; for numbers the
    per-literal theorems above hold at every position with every delimited continuation, and whitespace is a
    delimiter (BaseTypesProofs.is_ws_delimited); sequences of numbers are covered by the correspondence runs. *)
+
+(* ---- the engine's fuel is never exhausted: every fuel above lo + |rest| gives the same list of successes
+   (so the out-of-fuel value [] of rep_loop plays no role in any match) *)
+Theorem C04_rx_fuel : forall E g lo hi r st fuel,
+  lo + length (snd st) < fuel -> ends E (RRep g lo hi r) st = rep_loop (ends E r) g lo hi fuel st.
+Proof. exact ends_rep_fuel. Qed.
+Print Assumptions C04_rx_fuel.
+
+Example C04_rx_fuel_nonvacuous :
+  ends (env_ml ascii_only) (RRep true 1 None (RSet false [IRange 48 57])) ([], [49; 50; 97]%N)
+  = [([50; 49]%N, [97]%N); ([49]%N, [50; 97]%N)].
+Proof. vm_compute. reflexivity. Qed.
+Print Assumptions C04_rx_fuel_nonvacuous.
